@@ -25,6 +25,7 @@ import (
 var c01ListIDs = []int{1, 0, -1, math.MaxInt32, math.MinInt32, 7}
 
 type c01Alphabet struct {
+	nCore    int
 	rules    []string
 	requests []c04Req
 	wA, wB   string
@@ -66,10 +67,22 @@ func c01GetAlphabet() *c01Alphabet {
 			"/ad$domain=co.uk",        // $domain naming a public suffix (ICANN)
 			"/ad$domain=github.io|uk", // private suffix and a TLD
 		}
+		a.nCore = len(a.rules)
+		// extended alphabet (explored one level less deep than the core)
+		a.rules = append(a.rules,
+			"/ad$domain=example.org|badexample.org",  // one value is a string suffix, not a label suffix, of the other
+			"/ad$domain=sub.example.org|example.org", // a value covered by another value
+			"http://ads1.example.org^",               // scheme spelled out: shortcut windows overlap "http:"
+			"http://ads2.example.org^",
+			"://ads3.example.org^",
+			"|http://ads4.example.org/",
+			"ads5.example.org^",        // un-anchored: matched against the bare hostname for hostname requests
+			"||EXAMPLE.org^$important", // upper case in the pattern, lower-cased shortcut
+		)
 		long := "http://example.org/ads?" + strings.Repeat("x", 4070) + "/banner-ads-"
 		urls := []string{"http://example.org/", "https://sub.example.org/ads?x=1", "http://x.com/banner", "http://EXAMPLE.ORG/ADS", "http://example.org/?u=example.org",
-			"http://x.test/" + a.wA + "/", "http://x.test/" + a.wB + "/", "http://example.org/-ads-/ad", "https://y.test/ad", "http://x.test/реклама-x?q", long}
-		srcs := []string{"", "http://example.org/", "http://sub.example.org/", "https://www.google.co.uk/", "http://x.google.agoogle.com/", "http://" + a.hA + "/", "http://" + a.hB + "/", "http://x.com/", "http://user.github.io/", "http://a.co.uk/"}
+			"http://x.test/" + a.wA + "/", "http://x.test/" + a.wB + "/", "http://example.org/-ads-/ad", "https://y.test/ad", "http://x.test/реклама-x?q", "http://example.org/\u212aelvin-ads-/\u0130/ad", "http://ads1.example.org/?u=http://ads2.example.org/", long}
+		srcs := []string{"", "http://example.org/", "http://sub.example.org/", "https://www.google.co.uk/", "http://x.google.agoogle.com/", "http://" + a.hA + "/", "http://" + a.hB + "/", "http://x.com/", "http://user.github.io/", "http://a.co.uk/", "http://badexample.org/", "http://www.badexample.org/"}
 		for _, u := range urls {
 			for _, s := range srcs {
 				for _, t := range []rules.RequestType{rules.TypeScript, rules.TypeDocument} {
@@ -77,7 +90,7 @@ func c01GetAlphabet() *c01Alphabet {
 				}
 			}
 		}
-		for _, h := range []string{"h1.test", "example.org"} {
+		for _, h := range []string{"h1.test", "example.org", "ads1.example.org", "ads2.example.org", "ads3.example.org", "ads4.example.org", "ads5.example.org", "sub.ads5.example.org"} {
 			for _, withClient := range []bool{false, true} {
 				q := rules.NewRequestForHostname(h)
 				if withClient {
@@ -243,13 +256,38 @@ func init() {
 			m.run(hist)
 			return
 		}
-		model := statespace.Model{NOps: len(a.rules) + 1, Run: m.run}
-		depth, guard := 4, 2
+		full := statespace.Model{NOps: len(a.rules) + 1, Run: m.run}
+		// the core alphabet (the first nCore rules + "new list") is explored one level deeper
+		core := statespace.Model{NOps: a.nCore + 1, Run: func(h []int) statespace.Outcome {
+			hh := make([]int, len(h))
+			for i, k := range h {
+				hh[i] = k
+				if k == a.nCore {
+					hh[i] = len(a.rules)
+				}
+			}
+			o := m.run(hh)
+			if o.Enabled != nil {
+				en := make([]bool, a.nCore+1)
+				copy(en, o.Enabled[:a.nCore])
+				en[a.nCore] = o.Enabled[len(a.rules)]
+				o.Enabled = en
+			}
+			return o
+		}}
+		depth, guard := 3, 2
 		if c.Thorough() {
-			depth, guard = 5, 3
+			depth, guard = 4, 3
 		}
-		g := statespace.BFS(model, guard, false, c.Workers, c.Deadline)
-		s := statespace.BFS(model, depth, true, c.Workers, c.Deadline)
+		g := statespace.BFS(full, guard, false, c.Workers, c.Deadline)
+		s := statespace.BFS(full, depth, true, c.Workers, c.Deadline)
+		s2 := statespace.BFS(core, depth+1, true, c.Workers, c.Deadline)
+		s.States += s2.States
+		s.Transitions += s2.Transitions
+		s.DeadlineHit = s.DeadlineHit || s2.DeadlineHit
+		c.Run.Set("core_alphabet", int64(a.nCore+1))
+		c.Run.Set("core_depth_bound", int64(depth+1))
+		c.Run.Set("core_states_per_depth", s2.PerDepth)
 		c.Run.Sample(map[string]any{"history": []string{a.rules[0], a.rules[1], "<new list>", a.rules[0]}, "requests": len(a.requests)})
 		c.Run.Sample(map[string]any{"colliding_windows": []string{a.wA, a.wB}, "colliding_domains": []string{a.hA, a.hB}})
 		c.Run.Set("states", s.States)
